@@ -37,6 +37,7 @@ InvC31Tables ==
   /\ C31_LabelsOk(CodeBasis(qed), qed)
   /\ C31_RowsOk(CodeBasis(qed), CodeRot(qed))
   /\ C31_Orthogonal(CodeRot(qed))
+InvC31Ref == \A lab \in SectorLabels(qed) : C31_SectorMap(SectorMapRef(lab, nf, qed), lab, nf, qed)
 InvC31Available == \A lab \in SectorLabels(qed) : Available(lab, qed)
 InvC31Sector ==
   \A lab \in SectorLabels(qed) :
